@@ -660,6 +660,9 @@ MHD_add_response_header (struct MHD_Response *response,
         free (hdr->value);
       free (hdr->header);
       free (hdr);
+      /* The old header is gone even if the new one is rejected below */
+      response->flags_auto &=
+        ~((enum MHD_ResponseAutoFlags) MHD_RAF_HAS_DATE_HDR);
     }
     if (MHD_NO != add_response_entry (response,
                                       MHD_HEADER_KIND,
